@@ -135,6 +135,7 @@ def check(repo, rep):
     rets = [l for l in gl if l.outcome == 'return']
     for l in rets:
         v = l.value
+        v = cx.sx._nt_as_tuple(v) or v          # a private NamedTuple (rate, width, channels) is that tuple
         ok = v[0] == 'tuple' and len(v[1]) == 3
         if ok:
             for t, long_ in zip(v[1], ('sampling_rate', 'sample_width', 'channels')):
